@@ -413,6 +413,26 @@ pub fn build(d: &SortDoc) -> R<(AutosarModel, ArxmlFile)> {
                             x.set_attribute_string(AttributeName::Gid, GIDS[*gid])?;
                             x.set_character_data(TEXTS[*text].to_string())?;
                         }
+                        // a nested SEQUENCE group of the specification: PRM-CHAR = ((ABS TOL) | (MIN TYP MAX)) PRM-UNIT REMARK - the
+                        // members keep the order of the group, which is neither alphabetical nor given by the top-level position
+                        let prms = els.create_named_sub_element(ElementName::Documentation, &format!("{n}_doc"))?.create_sub_element(ElementName::DocumentationContent)?.create_sub_element(ElementName::Prms)?;
+                        // (chosen from the SET of group ids, so that the permuted build makes the same elements)
+                        let mut gs: Vec<usize> = sd.iter().map(|(g, _)| *g as usize).collect();
+                        gs.sort();
+                        gs.dedup();
+                        for gid in gs.iter().take(3) {
+                            let pc = prms.create_named_sub_element(ElementName::Prm, &format!("prm{gid}"))?.create_sub_element(ElementName::PrmChar)?;
+                            if gid % 2 == 0 {
+                                for (k, v) in [(ElementName::Min, "1"), (ElementName::Typ, "2"), (ElementName::Max, "3")] {
+                                    pc.create_sub_element(k)?.set_character_data(v.to_string())?;
+                                }
+                            } else {
+                                for (k, v) in [(ElementName::Abs, "1"), (ElementName::Tol, "2")] {
+                                    pc.create_sub_element(k)?.set_character_data(v.to_string())?;
+                                }
+                            }
+                            pc.create_sub_element(ElementName::PrmUnit)?.set_character_data("V".to_string())?;
+                        }
                     }
                 }
                 Elem::Bsw(n, args) => {
@@ -603,7 +623,7 @@ fn involves_cyclic_names(d: &SortDoc) -> bool {
 
 pub fn run(ctx: &Ctx) {
     ctx.set_rule(
-        "Models built through the API from a generated description: packages and elements named from a letter/digit universe (a, a1, a2, a10, a1b, a02, pkg1, pkg10, n007, n7 ...), COMPU-SCALEs, ECUC containers / parameter values with INDEX and DEFINITION-REF keys (equal keys included), mixed kinds inside the ELEMENTS bag, an ordered ARGUMENTS container, sibling lists of up to 60 elements; each model is built twice, the second time with every reorderable sibling list permuted. \
+        "Models built through the API from a generated description: packages and elements named from a letter/digit universe (a, a1, a2, a10, a1b, a02, pkg1, pkg10, n007, n7 ...), COMPU-SCALEs, ECUC containers / parameter values with INDEX and DEFINITION-REF keys (equal keys included), mixed kinds inside the ELEMENTS bag, an ordered ARGUMENTS container, PRM-CHAR elements (nested sequence groups MIN TYP MAX / ABS TOL before PRM-UNIT), sibling lists of up to 60 elements; each model is built twice, the second time with every reorderable sibling list permuted. \
          Oracle: sort() keeps the element objects and a canonical form (order-sensitive only where the specification forbids reordering), keeps specification order (own grammar matcher), path and reference lookups; sort.sort == sort on the serialized text; sort(permuted) == sort(original) byte for byte; no panic. Non-trivial: >= 3 reorderable siblings and a non-identity permutation; distinct by sorted text and permutation.",
     );
     let cases = ctx.tier.pick(12_000u64, 150_000u64);
